@@ -9,6 +9,7 @@ import (
 	"servitor/verifkit"
 	"servitor/verifsim"
 	"strings"
+	"sync"
 	"testing"
 	"time"
 )
@@ -86,9 +87,39 @@ func verifHostileURL(rng *rand.Rand, h *verifsim.Host, tag string) verifURL {
 	return verifURL{typed, path, query}
 }
 
+/* concurrent fetches (as collection preloading does): every connection must still carry
+   exactly one request, for its own host */
+func verifConcurrentRequests(out *verifkit.Trace, sim *verifsim.Sim, rounds int) {
+	hosts := []*verifsim.Host{sim.Host("h1"), sim.Host("h2"), sim.Host("h3")}
+	for round := 0; round < rounds; round++ {
+		sim.Reset()
+		before := sim.ConnCount()
+		var wg sync.WaitGroup
+		for k := 0; k < 48; k++ {
+			h := hosts[k%3]
+			target := fmt.Sprintf("/conc/%d/%d?item=%d&pad=%s", round, k, k, strings.Repeat("x", k%17))
+			wg.Add(1)
+			go func() {
+				defer wg.Done()
+				verifkit.Try(func() { New(h.URL(target), nil) })
+			}()
+		}
+		wg.Wait()
+		sim.Quiesce(2 * time.Second)
+		out.Emit(verifkit.M{"ev": "case", "id": 100000 + round, "mode": 9, "desc": fmt.Sprintf("48 concurrent fetches, round %d", round), "conns": sim.ConnCount() - before})
+		for _, ev := range sim.PlainConnEvents(before, func(*verifsim.ConnLog) string { return verifsim.AcceptActivity }) {
+			out.Emit(ev)
+		}
+		if got := sim.ConnCount() - before; got != 48 {
+			out.Emit(verifkit.M{"ev": "noconn", "conns": got - 48})
+		}
+	}
+}
+
 func TestVerifRequests(t *testing.T) {
 	var in struct {
 		Random int `json:"random"`
+		Rounds int `json:"rounds"`
 	}
 	verifkit.In(&in)
 	out := verifkit.Out()
@@ -97,6 +128,7 @@ func TestVerifRequests(t *testing.T) {
 	defer sim.Cleanup()
 	rng := verifkit.Rand()
 	h1, h2 := sim.Host("h1"), sim.Host("h2")
+	defer verifConcurrentRequests(out, sim, in.Rounds)
 	note := func(h *verifsim.Host, path string, extra string) *verifsim.Route {
 		body := fmt.Sprintf(`{"id":"https://%s%s","type":"Note","content":"x","published":"2024-01-01T00:00:00Z"%s}`, h.Addr, path, extra)
 		return &verifsim.Route{Raw: []byte("HTTP/1.0 200 OK\r\nContent-Type: application/activity+json\r\n\r\n" + body)}
